@@ -74,6 +74,9 @@ WITNESS_PREMATURE_IDLE = {"tau": 0.2, "store": "memory", "yielding": False,
                           "wf": {"dur": {"5": 1.0}, "start_sends": [5], "final": 99}, "plan": []}
 WITNESS_SEND_WINDOW = {"tau": 0.2, "store": "memory", "yielding": True, "wf": {"dur": {"1": 0.1, "2": 1.0}, "final": 99},
                        "plan": [{"at": 0.05, "n": 1}, {"at": 0.1, "n": 2}], "choices": [0, 1, 0]}
+# wait_for_event(requirements={"k": 1}); released while waiting; Ext(k=2) sent to the released run (found by the C14 builder)
+WITNESS_REQUIREMENTS_LOST = {"tau": 1.0, "store": "memory", "yielding": False, "wf": {"kind": "waiter", "nw": 1, "req_k": 1},
+                             "plan": [{"at": 1.5, "n": 1, "k": 2}, {"at": 1.6, "n": 2, "k": 1}]}
 WITNESS_QUERY_WINDOW = {"tau": 0.2, "store": "memory", "yielding": True, "wf": {"dur": {"1": 0, "2": 0.05}, "final": 99, "nw": 1},
                         "plan": [{"at": 0.0, "n": 1}, {"at": 0.6, "n": 2}, {"at": 0.801, "n": 99}],
                         "choices": [1, 1, 1, 1, 0, 0, 0, 0, 0, 0, 0]}
@@ -205,26 +208,28 @@ def monitors(case: dict, r: dict, ref: dict | None) -> list[tuple[str, str]]:
     for p in pubs:
         if not p["truly_idle"]["idle"]:
             continue
+        deadline = p["t"] + tau
         later = [e for e in ev if pos[id(e)] > pos[id(p)]]
         disturb = None
         for e in later:
-            if e["ev"] == "idle_published" or (e["ev"] == "op" and e["op"].startswith(("scall|", "sacq|"))) or e["ev"] in ("loop_start",):
-                disturb = e
-                break
             if e["ev"] == "abort":
                 break
-            if e["ev"] == "status" and e.get("status") in ("completed", "failed", "cancelled"):
+            if (e["ev"] == "idle_published" or (e["ev"] == "op" and e["op"].startswith(("scall|", "sacq|"))) or e["ev"] == "loop_start"
+                    or (e["ev"] == "status" and e.get("status") in ("completed", "failed", "cancelled"))):
                 disturb = e
                 break
         ab = next((e for e in later if e["ev"] == "abort"), None)
-        if disturb is not None and (ab is None or pos[id(disturb)] < pos[id(ab)]):
-            # a sender arrived (or the run re-announced / ended) before the release: only "not before the timeout" applies
+        if disturb is not None and disturb["t"] <= deadline:
+            continue  # something happened before the timeout had elapsed: only "not before the timeout" applies
+        if ab is not None and (disturb is None or pos[id(ab)] < pos[id(disturb)]):
+            if not yielding and ab["t"] != deadline:
+                out.append(("C36/not_released_after_timeout", f"idle announced at t={p['t']} with idle_timeout {tau} ms and nothing in between — released only at t={ab['t']}"))
             continue
-        if ab is None:
-            if end_t >= p["t"] + tau + 1 and not any(s.get("t", 0) > p["t"] and s["ev"] == "send_accepted" for s in ev):
-                out.append(("C36/not_released_after_timeout", f"idle announced at t={p['t']}, nothing was sent until t={end_t}, idle_timeout {tau} ms — the run was never released"))
-        elif not yielding and ab["t"] != p["t"] + tau:
-            out.append(("C36/not_released_after_timeout", f"idle announced at t={p['t']} with idle_timeout {tau} ms and no send in between — released only at t={ab['t']}"))
+        # no release before the next disturbance (which came after the deadline), or none at all
+        seen_until = disturb["t"] if disturb is not None else end_t
+        if seen_until > deadline and not (yielding and disturb is not None):
+            out.append(("C36/not_released_after_timeout",
+                        f"idle announced at t={p['t']}, idle_timeout {tau} ms, nothing happened until t={seen_until} — the run was not released at t={deadline}"))
     # ---- every accepted send is processed; nothing runs twice
     entered: dict[int, int] = {}
     done: dict[int, int] = {}
@@ -237,7 +242,12 @@ def monitors(case: dict, r: dict, ref: dict | None) -> list[tuple[str, str]]:
     completed_at = next((e["t"] for e in ev if e["ev"] == "status" and e.get("status") in ("completed", "failed", "cancelled")), None)
     for n, res in r["send_results"].items():
         if res != "ok":
-            out.append(("C26/send_failed", f"send_event for tick {n} raised inside the lock section: {res}"))
+            # (after a busy release the persisted ticks no longer describe one consistent run: a later reload can fail in
+            #  replay_ticks_stream — "Worker 0 not found in in_progress", C13/second_restart_replays_across_resume — and the
+            #  exception dies in ctx.send_event's fire-and-forget task; attributed to the release that caused it)
+            if not busy_aborts:
+                out.append(("C26/send_failed", f"send_event for tick {n} raised inside the lock section: {res}"))
+                out.append(("C36/reload_failed", f"send_event for tick {n} raised inside the lock section: {res}"))
             continue
         if entered.get(n, 0) == 0:
             deliv = next((e for e in ev if e["ev"] == "deliver" and e["n"] == n), None)
@@ -252,10 +262,23 @@ def monitors(case: dict, r: dict, ref: dict | None) -> list[tuple[str, str]]:
         if k > 1 and not busy_aborts and n not in case["wf"].get("fail_once", []):
             out.append(("C26/step_ran_twice", f"step b completed {k} times for tick {n} although no busy release happened"))
     for e in ev:
-        if e["ev"] in ("send_error", "send_no_delivery"):
+        if e["ev"] in ("send_error", "send_no_delivery") and not busy_aborts:
             out.append(("C26/send_failed", f"{e}"))
+    # ---- a waiter's requirements survive the reload
+    req_lost = False
+    if case["wf"].get("kind") == "waiter":
+        ks = {p["n"]: p.get("k") for p in case.get("plan", [])}
+        req_k = case["wf"].get("req_k", 1)
+        reloaded_at = [pos[id(e)] for e in ev if e["ev"] == "loop_start" and e["by"][0] == "s"]
+        for e in ev:
+            if e["ev"] == "step" and e["kind"] == "done" and e["step"] == "w" and ks.get(e["n"]) != req_k:
+                after_reload = any(p < pos[id(e)] for p in reloaded_at)
+                req_lost = True
+                out.append(("C36/wait_requirements_lost_on_reload" if after_reload else "C36/wait_requirements_not_enforced",
+                            f"wait_for_event(requirements={{'k': {req_k}}}) returned Ext(n={e['n']}, k={ks.get(e['n'])})"
+                            + (" after the run had been released and reloaded from its persisted ticks" if after_reload else "")))
     # ---- result equals the uninterrupted run's
-    if ref is not None and not busy_aborts and not yielding:
+    if ref is not None and not busy_aborts and not yielding and not req_lost:
         # (with scheduler-delayed senders the delivery order is the scheduler's, not the plan's: no reference)
         if (r.get("status"), r.get("result")) != (ref.get("status"), ref.get("result")):
             out.append(("C36/result_differs_after_reload", f"with idle release: status={r.get('status')} result={r.get('result')}; without: status={ref.get('status')} result={ref.get('result')}"))
